@@ -304,8 +304,10 @@ func (l *IPFSLog) Has(c cid.Cid) bool {
 //
 // payload is the data that will be in the Entry
 func (l *IPFSLog) Append(ctx context.Context, payload []byte, opts *AppendOptions) (iface.IPFSLogEntry, error) {
+	verifHook("append.enter", l)
 	l.lock.Lock()
 	defer l.lock.Unlock()
+	verifHook("append.locked", l)
 
 	// next and refs are empty slices instead of nil
 	next := []cid.Cid{}
@@ -389,6 +391,7 @@ func (l *IPFSLog) Append(ctx context.Context, payload []byte, opts *AppendOption
 		return nil, errmsg.ErrLogAppendDenied.Wrap(err)
 	}
 
+	verifHook("append.publish", l)
 	l.Entries.Set(e.GetHash().String(), e)
 
 	for _, nextEntryCid := range next {
@@ -435,6 +438,7 @@ func (l *IPFSLog) Iterator(options *IteratorOptions, output chan<- iface.IPFSLog
 	}
 
 	l.lock.RLock()
+	verifHook("iterator.locked", l)
 	start := l.sortedHeads(l.heads.Slice()).Slice()
 
 	if options.LTE != nil {
@@ -530,11 +534,15 @@ func (l *IPFSLog) Join(otherLog iface.IPFSLog, size int) (iface.IPFSLog, error) 
 
 	// read a consistent view of the other log (its heads first, then a superset
 	// of their history) before taking our own lock
+	verifHook("join.enter", l)
 	otherHeads := otherLog.RawHeads()
+	verifHook("join.heads-read", l)
 	otherEntries := otherLog.GetEntries()
+	verifHook("join.entries-read", l)
 
 	l.lock.Lock()
 	defer l.lock.Unlock()
+	verifHook("join.locked", l)
 
 	newItems := difference(otherEntries, otherHeads.Slice(), l)
 
@@ -575,6 +583,7 @@ func (l *IPFSLog) Join(otherLog iface.IPFSLog, size int) (iface.IPFSLog, error) 
 	if err != nil {
 		return nil, errmsg.ErrLogJoinFailed.Wrap(err)
 	}
+	verifHook("join.publish", l)
 
 	for _, k := range newItems.Keys() {
 		e := newItems.UnsafeGet(k)
